@@ -140,6 +140,8 @@ class _Run:
         self.raw = self.mc.__wrapped__
         self.out, self.oracle, self.tags = [], [], set()
         self.lockstep = not case.get("no_ref")
+        self._rawdump = None  # cached raw dump (valid while only rejected calls happened)
+        self._nview = 0
 
     def close(self):
         for x in (self.mc, self.ref):
@@ -286,6 +288,10 @@ class _Run:
             self.hit("user-tree-differs", i, op, only_container=only_mc, only_plain=only_ref, different=diff)
             return
         # every group: listings agree with the plain tree; every node can be looked up
+        # (on IH5 this is slow: every 6th step and at the end)
+        self._nview += 1
+        if self.drv == "ih5" and op != ["end"] and self._nview % 6:
+            return
         for name, d in want.items():
             if d[0] != "g":
                 continue
@@ -324,13 +330,14 @@ class _Run:
             self.tags.add("reserved:" + k)
             if any(has_reserved(p) and not p.startswith("metador_") and "/metador_" in p for p in pargs):
                 self.tags.add("reserved-nested")
-            before = dump(self.raw)
+            before = self._rawdump if self._rawdump is not None else dump(self.raw)
             try:
                 self.call(self.mc, op)
                 res = "ok"
             except Exception as e:
                 res = "err"
             after = dump(self.raw)
+            self._rawdump = after
             self.out.append(res)
             if res == "ok":
                 self.hit("reserved-accepted", i, op, changed=before != after)
@@ -339,6 +346,7 @@ class _Run:
                 gone = sorted(set(before) - set(after))[:5]
                 self.hit("reserved-effect", i, op, created=new, removed=gone)
             return
+        self._rawdump = None
         # user operation. The plain reference is driven by the same *successful* operations;
         # an operation that raises must either have left the user view as it was (refused:
         # the reference is not advanced) or have taken its full effect (then the reference is
